@@ -312,6 +312,13 @@ func additionalImportsForType(p protogen.GoImportPath, m *protogen.Message, goPa
 	for _, fld := range m.Fields {
 		switch fld.Desc.Kind() {
 		case protoreflect.MessageKind:
+			if fld.Desc.IsMap() {
+				// the synthetic map entry message lives in this package; its key/value types may not
+				for ip, gopkg := range additionalImportsForType(p, fld.Message, goPackageForFile) {
+					res[ip] = gopkg
+				}
+				continue
+			}
 			if ip := fld.Message.GoIdent.GoImportPath; ip != p {
 				gopkg := goPackageForFile[fld.Message.Desc.ParentFile().Path()]
 				res[ip.String()] = gopkg
